@@ -14,6 +14,7 @@ import (
 	"errors"
 	"fmt"
 	"github.com/tailscale/setec/audit"
+	"io"
 	"math/rand/v2"
 	"net/http"
 	"net/http/httptest"
@@ -370,8 +371,9 @@ func TestC01(t *testing.T) {
 		manyCallers(t, r, dir)
 		sameLoginOtherGrants(t, r, dir)
 		denialWithFlakyAudit(t, r, dir)
+		serverWithoutWhoIs(t, r, dir)
 	}
-	r.Require("dashboard_pages_checked", "dashboard_pages_same_login_other_grants", "rules_without_patterns", "decisions_in_a_long_lived_server", "version_counter_probes", "overlapping_requests_same_login_other_grants", "denied_calls_with_flaky_audit", "rule_changes_mid_case", "concurrent_peer_replies", "concurrent_denied_calls", "cases", "http_cases_with_spoofed_identity_headers", "allowed_calls", "denied_calls", "denied_on_existing", "denied_on_absent")
+	r.Require("requests_to_a_server_without_whois", "dashboard_pages_checked", "dashboard_pages_same_login_other_grants", "rules_without_patterns", "decisions_in_a_long_lived_server", "version_counter_probes", "overlapping_requests_same_login_other_grants", "denied_calls_with_flaky_audit", "rule_changes_mid_case", "concurrent_peer_replies", "concurrent_denied_calls", "cases", "http_cases_with_spoofed_identity_headers", "allowed_calls", "denied_calls", "denied_on_existing", "denied_on_absent")
 	r.Rule("case = (database state reached by 4-13 random superuser operations over a hostile 12-name pool incl. empty, reserved, newline, literal-'*' and path-like ('a/../b', 'a//b', 'a/b/') names; 0-3 random rules over the 5 actions (+unknown ones) and 23 exact/wildcard/regexp-meta patterns); then all 9 operations x all 8 names x versions {0,1,2,9} in random order, at the DB API and through the HTTP handlers. Distinct = (level, operation, authorised?, secret exists?, model outcome class, rule count)")
 }
 
@@ -737,4 +739,75 @@ func manyCallers(t *testing.T, r *evid.Run, dir string) {
 		}
 	}
 	r.Distinct("long-lived server, many callers")
+}
+
+// serverWithoutWhoIs: a server created without any WhoIs function (a legal configuration: nothing in
+// server.New rejects it) has no way to learn a caller's grants. Whatever it does with a request - fail it,
+// abort the handler - it must not serve it: nobody holds a grant there.
+func serverWithoutWhoIs(t *testing.T, r *evid.Run, dir string) {
+	rng := r.Rand(70707)
+	for ci, kind := range []string{"db handed over", "db opened by the server"} {
+		path := filepath.Join(dir, fmt.Sprintf("nowhois%d.db", ci))
+		d, err := realdb.Open(path, realdb.DummyKey("c01nw"))
+		if err != nil {
+			t.Fatal(err)
+		}
+		val := marker(rng)
+		d.Put(realdb.Super(), "kept", val)
+		d.Put(realdb.Super(), "kept", marker(rng))
+		before, _ := realdb.Dump(d)
+		mux := http.NewServeMux()
+		cfg := server.Config{DB: d, Mux: mux}
+		if ci == 1 {
+			// (the file is opened a second time by the server; the handle above only reads from now on)
+			cfg = server.Config{DBPath: path, Key: realdb.DummyKey("c01nw"), AuditLog: audit.New(io.Discard), Mux: mux}
+		}
+		if _, err := server.New(context.Background(), cfg); err != nil {
+			r.Count("requests_to_a_server_without_whois", 1) // refusing the configuration outright is fine as well
+			continue
+		}
+		for _, op := range []ops.Op{{Kind: ops.List}, {Kind: ops.Info, Name: "kept"}, {Kind: ops.Get, Name: "kept"}, {Kind: ops.GetVer, Name: "kept", Version: 1}, {Kind: ops.GetCond, Name: "kept", Version: 1},
+			{Kind: ops.Put, Name: "kept", Value: marker(rng)}, {Kind: ops.Put, Name: "new", Value: marker(rng)}, {Kind: ops.Act, Name: "kept", Version: 2}, {Kind: ops.DelVer, Name: "kept", Version: 2}, {Kind: ops.Delete, Name: "kept"}} {
+			for _, addr := range []string{"100.64.0.2:4711", "127.0.0.1:4711"} {
+				pathq, body := httpdrv.Request(op)
+				req := httptest.NewRequest("POST", pathq, bytes.NewReader(body))
+				req.RemoteAddr = addr
+				for k, v := range httpdrv.GoodHeaders {
+					req.Header.Set(k, v)
+				}
+				rec := httptest.NewRecorder()
+				aborted := func() (p any) {
+					defer func() { p = recover() }()
+					mux.ServeHTTP(rec, req)
+					return nil
+				}()
+				r.Eval(1)
+				r.Count("requests_to_a_server_without_whois", 1)
+				r.Distinct("server without WhoIs, " + string(op.Kind))
+				if aborted == nil && rec.Code >= 200 && rec.Code < 300 {
+					r.Violation("http-unauthorised-call-succeeded", -1, fmt.Sprintf("a server created without a WhoIs function (%s) answered %s from %s with %d %.80q: it served a caller whose grants it cannot know", kind, op, addr, rec.Code, rec.Body.Bytes()), nil)
+					return
+				}
+				if leaks(rec.Body.Bytes(), [][]byte{val}) {
+					r.Violation("http-refusal-discloses", -1, fmt.Sprintf("a server created without a WhoIs function (%s): the reply to %s carries secret bytes", kind, op), nil)
+					return
+				}
+			}
+		}
+		var after *refmodel.Model
+		if ci == 0 {
+			after, _ = realdb.Dump(d)
+		} else {
+			d2, err := realdb.Open(path, realdb.DummyKey("c01nw"))
+			if err != nil {
+				r.Violation("http-unauthorised-call-changed-state", -1, "server without WhoIs: the database no longer opens: "+err.Error(), nil)
+				return
+			}
+			after, _ = realdb.Dump(d2)
+		}
+		if after == nil || after.Canon() != before.Canon() {
+			r.Violation("http-unauthorised-call-changed-state", -1, fmt.Sprintf("requests to a server created without a WhoIs function (%s) changed the stored state", kind), nil)
+			return
+		}
+	}
 }
